@@ -16,12 +16,14 @@ def run_one(sc):
     secs, opts = sc["secs"], sc["opts"]
     rec = {"id": sc["id"], "cfg": {"secs": secs, "opts": opts}, "ev": [], "outcome": "ok"}
     dfs, bodies, hdrs, exp = [], [], [], []
+    mode = opts.get("body", "own")
+    one_body = None if mode == "own" else (rtf.RTFBody() if mode == "shared" else rtf.RTFBody(col_rel_width=[1]))
     for si, s in enumerate(secs, 1):
         cols = ["c%d_%d" % (si, j) for j in range(1, s["m"] + 1)]
         rows = [["s%dr%dc%d%s" % (si, r, j, "  " if (r + j) % 3 == 0 else "") for j in range(1, s["m"] + 1)] for r in range(1, s["n"] + 1)]
         data = {c: [rows[r][j] for r in range(s["n"])] for j, c in enumerate(cols)}
         dfs.append(pl.DataFrame(data, schema={c: pl.Utf8 for c in cols}))
-        bodies.append(rtf.RTFBody())
+        bodies.append(rtf.RTFBody() if one_body is None else one_body)
         hdrs.append([rtf.RTFColumnHeader(text=["~H%d.%d~" % (si, j) for j in range(1, s["m"] + 1)])] if s["hdr"] == "explicit" else [None])
         exp.append({"n": s["n"], "m": s["m"], "rows": rows})
     kw = {"rtf_title": rtf.RTFTitle(text="~T~") if opts["title"] else None}
